@@ -65,8 +65,10 @@ class RI(proto.Interp):
         return None
 
 
-def state0(me):
-    e0, e1 = T('tuple', C('old0'), T('a0')), T('tuple', C('old1'), T('a1'))
+def state0(me, symbolic=True):
+    # symbolic op names (default): every comparison of an existing op with a literal forks, so special-casing of the pending ops is explored;
+    # constant names are used by replay checks that need to recognise which dunder is invoked
+    e0, e1 = (T('tuple', T('oldname0'), T('a0')), T('tuple', T('oldname1'), T('a1'))) if symbolic else (T('tuple', C('old0'), T('a0')), T('tuple', C('old1'), T('a1')))
     ref0 = T('ref', C(-1))
     heap = {(me, '_ops'): ref0, ref0: T('list', e0, e1)}
     return heap, ref0, (e0, e1)
@@ -109,6 +111,11 @@ def check_derivation(ctx, cls, fi, args, label, expect_pair):
             probs.append('%s: op list of the derived reader is %s' % (label, show(content)[:60]))
             continue
         items = content[2:]
+        if len(items) < 2 and tuple(items) == tuple(old[:len(items)]):
+            # a NEW list holding a proper prefix of the parent's ops: an algebraic simplification (e.g. cancelling a double negation);
+            # whether it preserves the value is an arithmetic question this rule does not decide
+            probs.append('UNDECIDED %s: the derived reader drops trailing ops of its parent (algebraic simplification, not decided)' % label)
+            continue
         if items[:2] != old or len(items) != 3:
             probs.append('%s: the derived reader holds ops %s, expected the parent\'s ops followed by one new op' % (label, [show(x)[:30] for x in items]))
             continue
@@ -145,6 +152,10 @@ def run(ctx):
                 unary = len(m.params) == 1
                 arg = T('param', m.params[1]) if not unary else C(None)
                 probs, n = check_derivation(ctx, cls, m, (arg,) if not unary else (), name, T('tuple', C(x), arg))
+                und = [p_ for p_ in probs if p_.startswith('UNDECIDED ')]
+                probs = [p_ for p_ in probs if not p_.startswith('UNDECIDED ')]
+                for p_ in sorted(set(und))[:1]:
+                    ctx.undecided('C02.T2', m, p_[10:])
                 if probs:
                     for pmsg in sorted(set(probs))[:2]:
                         ctx.violated('C02.T2', m, pmsg[:150], pmsg)
